@@ -231,6 +231,18 @@ impl<'tcx> Cx<'tcx> {
     /// A reference value stored inside an allocation at `off` (thin or fat pointer): describe its referent.
     fn read_ref_in_alloc(&self, alloc: &mir::interpret::Allocation, off: usize, ref_ty: Ty<'tcx>, pointee: Ty<'tcx>, depth: usize) -> Option<String> {
         let tcx = self.tcx;
+        if matches!(pointee.kind(), ty::Str | ty::Slice(_)) {
+            // an empty `&str` / `&[T]` may point nowhere (no provenance): its value is still known
+            if let Some(lraw) = self.read_alloc_bytes(alloc, off + 8, 8) {
+                if lraw.iter().all(|x| *x == 0) {
+                    return Some(if matches!(pointee.kind(), ty::Str) {
+                        format!("\"ty\":{},\"str\":\"\"", jstr(&ty_str(ref_ty)))
+                    } else {
+                        format!("\"ty\":{},\"bytes\":\"\",\"esz\":1", jstr(&ty_str(ref_ty)))
+                    });
+                }
+            }
+        }
         let prov = alloc.provenance().get_ptr(rustc_abi::Size::from_bytes(off as u64))?;
         let raw = self.read_alloc_bytes(alloc, off, 8)?;
         let mut poff: u64 = 0;
@@ -299,7 +311,7 @@ impl<'tcx> Cx<'tcx> {
         if depth < 4 {
             let structured = match t.kind() {
                 ty::Tuple(fs) => !fs.is_empty(),
-                ty::Array(e, _) => prim_size(*e).is_none(),
+                ty::Array(..) => int_array_shape(tcx, t).is_none(),
                 _ => false,
             };
             if structured && !matches!(cv, ConstValue::ZeroSized) {
@@ -370,7 +382,7 @@ impl<'tcx> Cx<'tcx> {
                                 return sc;
                             }
                             // generic pointee: integers and (nested) ADTs, decoded through the allocation
-                            if depth < 4 && (prim_size(pt).is_some() || matches!(pt.kind(), ty::Adt(..) | ty::Tuple(..) | ty::Array(..))) && !matches!(pt.kind(), ty::Adt(a, _) if a.is_box()) && !matches!(pt.kind(), ty::Array(e, _) if prim_size(*e).is_some()) {
+                            if depth < 4 && (prim_size(pt).is_some() || matches!(pt.kind(), ty::Adt(..) | ty::Tuple(..) | ty::Array(..))) && !matches!(pt.kind(), ty::Adt(a, _) if a.is_box()) && !(matches!(pt.kind(), ty::Array(..)) && int_array_shape(tcx, pt).is_some()) {
                                 let inner_cv = ConstValue::Indirect { alloc_id, offset: off };
                                 let nested = self.const_value_d(inner_cv, pt, depth + 1);
                                 if nested.starts_with("\"v\"") || nested.starts_with("\"adt2\"") || nested.starts_with("\"list\"") {
@@ -436,6 +448,17 @@ impl<'tcx> Cx<'tcx> {
                         let inner = a.inner();
                         if let Some(sc) = self.struct_const(inner, offset.bytes() as usize, t) {
                             return sc;
+                        }
+                        // a reference stored in memory (a `&str` / `&T` field of a destructured constant)
+                        if depth < 6 {
+                            if let Some(pt) = t.builtin_deref(true) {
+                                if let Some(sx) = self.read_ref_in_alloc(inner, offset.bytes() as usize, t, pt, depth) {
+                                    // read_ref_in_alloc leads with the "ty" the caller has already written
+                                    if let Some(pos) = sx.find("\",\"") {
+                                        return sx[pos + 2..].to_string();
+                                    }
+                                }
+                            }
                         }
                         if let Some(sz) = prim_size(t) {
                             if let Some(b) = self.read_alloc_bytes(inner, offset.bytes() as usize, sz) {
@@ -958,7 +981,8 @@ fn dump_const<'tcx>(cx: &Cx<'tcx>, ldid: LocalDefId, dk: DefKind, consts: &mut V
     }
     let t = tcx.type_of(did).skip_binder();
     let interesting = t.is_integral() || t.is_bool() || t.is_char() || int_array_shape(tcx, t).is_some()
-        || t.is_ref();
+        || t.is_ref()
+        || (matches!(dk, DefKind::Static { .. }) && matches!(t.kind(), ty::Adt(a, _) if a.is_enum() || a.is_struct()));
     if !interesting {
         return;
     }
@@ -982,6 +1006,14 @@ fn dump_const<'tcx>(cx: &Cx<'tcx>, ldid: LocalDefId, dk: DefKind, consts: &mut V
                 } else if let Some(sz) = prim_size(t) {
                     if let Some(b) = cx.read_alloc_bytes(inner, 0, sz) {
                         parts.push(format!("\"bytes\":{},\"esz\":{}", jstr(&hex(&b)), sz));
+                    }
+                } else if matches!(t.kind(), ty::Adt(a, _) if (a.is_enum() || a.is_struct()) && !path_of(tcx, a.did()).contains("sync::")) && !tcx.is_mutable_static(did) {
+                    // immutable static of a plain struct / enum type: its initial value is its value
+                    let aid = tcx.reserve_and_set_memory_alloc(alloc);
+                    let cv = ConstValue::Indirect { alloc_id: aid, offset: rustc_abi::Size::ZERO };
+                    let sv = cx.const_value(cv, t);
+                    if sv.starts_with("\"adt2\"") {
+                        parts.push(sv);
                     }
                 }
             }
